@@ -118,9 +118,14 @@ def upgrade(fmt, text, expected=None, via_json=False):
 
 # ---- per-format document makers -------------------------------------------------------------------
 
+def seeds_of(fmt):
+    mod = {"ci": CI, "im": IM, "ti": TI}[fmt]
+    return list(mod.SEEDS) + ([("dashed-parent", CI.seed_dashed_parent)] if fmt == "ci" else [])
+
+
 def spec_of(fmt, seed, edits):
     mod = {"ci": CI, "im": IM, "ti": TI}[fmt]
-    spec = dict(mod.SEEDS)[seed]()
+    spec = dict(seeds_of(fmt))[seed]()
     for e in edits:
         spec = mod.apply_spec(spec, e)
     return spec
@@ -320,10 +325,11 @@ def eval_fixture(fmt, rel):
 
 class Universe(object):
     def __init__(self, fmt):
+        self.fmt = fmt
         self.mod = {"ci": CI, "im": IM, "ti": TI}[fmt]
 
     def seeds(self):
-        return [(n, f()) for n, f in self.mod.SEEDS]
+        return [(n, f()) for n, f in seeds_of(self.fmt)]
 
     def edits(self, spec):
         return self.mod.edits(spec)
